@@ -17,7 +17,7 @@ Byte strings are lower-case hex (`-` = empty string), lists are comma separated
         answer: serve=<i|d|n><tag>@<rel hex>@<pos>@<relroute> | miss | badmethod | outer-miss
   svc mode=<serve|internal> path=<hex> user=<hex> level=<int> adm=<pred> auth=<a> setup=<s>
       res=<t> guest=<t> usr=<t> admin=<t> signin=<t>
-        pred = default|true|false|lvl2|anon|usera ; a = nil|miss|ok|err ; s = keep|err|set:<hex>:<int>
+        pred = default|true|false|lvl2|anon|usera ; a = nil|miss|ok|err ; s = keep|err|set:<hex>:<int>|seterr:<hex>:<int>
         t = nil|miss|ok|err|missset:<hex>:<int>
         answer: trace=<tier>@<user hex>@<level>,... out=<miss|ok|err|needsignin|redirect|panic>
   host sets=<hex>:<tag>,... reqs=<hex>,...
@@ -220,6 +220,10 @@ def mkSetup (spec : String) : Option (Ctx UInt8 → Option Nat × Ctx UInt8) :=
       let u ← Hex.decode u
       let l ← parseInt l
       pure fun c => (none, { c with user := u, level := l })
+    | ["seterr", u, l] => do   -- applies the claims first, then fails
+      let u ← Hex.decode u
+      let l ← parseInt l
+      pure fun c => (some 2, { c with user := u, level := l })
     | _ => none
 
 def mkPred (spec : String) : Option (Option (Ctx UInt8 → Bool)) :=
